@@ -54,7 +54,10 @@ RULE = ("random undirected multigraphs, <= 8 nodes / <= 14 edges (thorough: ever
         "graphs with 1000-2500 nodes (paths in all 8 orientation x weight-direction x edge-order combinations, then "
         "random caterpillars / stars / paths, extra edges touching the ends, sometimes disconnected; run under the "
         "default recursion limit) and 40 (300) 'dense' (near-)complete graphs with 20-32 nodes, many-ties / few-ties "
-        "weights.  PRESENTATION (recipe in case['present']): edges as tuples / lists / mixed, equal edges as the same "
+        "weights; every 6th random case and every 4th dense case is re-weighted with NUMERIC-EDGE weights, all exactly "
+        "representable with exact sums: tiny dyadics k*2^-40 / k*2^-30 (differences far below 1e-9), huge integers "
+        "2^40..2^48 with unit differences, huge and tiny in one graph, 13-digit weights differing from the 10th "
+        "significant digit on, negative and mixed-sign versions, equal weights as int and as float.  PRESENTATION (recipe in case['present']): edges as tuples / lists / mixed, equal edges as the same "
         "object, one list object for all kruskal calls; prim's neighbour collections as list / tuple / generator / "
         "iter / map / reversed / dict keys view (per graph or per node), pairs as tuples / lists, int / float / bool "
         "weights, odd hashable labels (None, 0, '', (), frozenset(), -1, 0.5, '0', ...; a start node labelled None is "
@@ -391,8 +394,10 @@ def gen_dense(rng):
             "container": rng.choice(["list", "tuple"])}
 
 
-def gen_case(rng, big: bool, all_starts: bool, tournament: bool = False):
+def gen_case(rng, big: bool, all_starts: bool, tournament: bool = False, numeric: bool = False):
     g = gen_tournament(rng, big) if tournament else gen_graph(rng, big)
+    if numeric and not tournament:
+        numeric_edge(rng, g)
     n = g["n"]
     if all_starts and not tournament:
         starts = [None] + list(range(n))
@@ -403,8 +408,49 @@ def gen_case(rng, big: bool, all_starts: bool, tournament: bool = False):
     g["labrot"] = rng.randrange(len(ODD))
     g["container"] = "list"
     g["present"] = gen_present(rng, n)
-    if g["scale"] == 1 and rng.random() < 0.15:
+    if g["scale"] == 1 and not g.get("numeric") and rng.random() < 0.15:
         g["wkind"] = "boolmix"
+    return g
+
+
+NUMERIC_FAMILIES = ["tiny40", "tiny30", "huge", "hugetiny", "digit10", "digit10"]
+
+
+def numeric_edge(rng, g, n_cap=12):
+    """Re-weight `g` with numerically extreme but exactly representable weights (all multiples of 1/scale, every
+    partial sum below 2**53/scale): tiny dyadics with differences far below 1e-9, huge integers with unit differences,
+    huge and tiny in one graph, weights that differ only from the 10th significant digit on; negative and mixed-sign
+    versions; equal weights presented as int and as float."""
+    fam = rng.choice(NUMERIC_FAMILIES)
+    n = max(g["n"], 1)
+    if fam == "tiny40":
+        scale, pool = 2 ** 40, rng.sample(range(1, 1025), rng.choice([2, 3, 5, 8]))
+    elif fam == "tiny30":
+        scale, pool = 2 ** 30, [rng.randint(1, 40) for _ in range(rng.choice([3, 5, 8]))]
+    elif fam == "huge":
+        e = rng.randint(40, 48 if n <= 16 else 46)
+        scale, pool = 1, [2 ** e + d for d in rng.sample(range(0, 7), rng.choice([2, 3, 5]))]
+    elif fam == "hugetiny":
+        e = rng.randint(44, 47 if n <= 16 else 45)
+        scale = 2 ** 30
+        pool = [rng.randint(1, 50) for _ in range(3)] + [2 ** e + d for d in rng.sample(range(0, 5), 3)]
+    else:
+        base = rng.randint(10 ** 11, 10 ** 12) * 10
+        scale = rng.choice([1, 1, 2 ** 10, 2 ** 20])
+        pool = [base + d for d in rng.sample(range(0, 10), rng.choice([2, 4, 6]))]
+    assert n * max(pool) < 2 ** 53
+    sign = rng.choice(["pos", "pos", "neg", "neg", "mixed"])
+    edges = []
+    for u, v, _ in g["edges"]:
+        k = rng.choice(pool)
+        if sign == "neg" or (sign == "mixed" and rng.random() < 0.5):
+            k = -k
+        edges.append([u, v, k])
+    adj = _adj_of(rng, g["n"], edges)
+    for lst in adj:
+        rng.shuffle(lst)
+    g.update(edges=edges, adj=adj, scale=scale, numeric=f"{fam}/{sign}",
+             wkind="float" if scale != 1 else rng.choice(["mixed", "mixed", "int", "float"]))
     return g
 
 
@@ -412,7 +458,7 @@ def gen_history(rng, big: bool):
     """2-4 related graphs run one after the other in ONE worker call (same labels and presentation): the same input
     again (on the same objects or on fresh ones), the same structure with other weights, a sub-graph (wide -> narrow),
     a super-graph (narrow -> wide).  Each member is judged on its own input."""
-    base = gen_case(rng, big, False, tournament=rng.random() < 0.2)
+    base = gen_case(rng, big, False, tournament=rng.random() < 0.2, numeric=rng.random() < 0.2)
     members, kinds = [base], ["base"]
     for _ in range(rng.choice([1, 2, 2, 3])):
         prev = members[-1]
@@ -807,6 +853,8 @@ def judge(ctx, case, out, replies):
     ctx.count(f"n={case['n']}")
     ctx.count(f"labels:{case['labels']}")
     ctx.count(f"family:{case.get('family', 'random')}")
+    if case.get("numeric"):
+        ctx.count(f"weights:numeric:{case['numeric']}")
     pr = case.get("present")
     if pr:
         ctx.count(f"present:edges:{pr['edge']}")
@@ -1101,11 +1149,12 @@ def run(ctx, budget):
     # ... and every 12th item is a history of 2-4 related graphs run in one worker call
     cases += [gen_history(ctx.rng, big=(thorough and i % 3 == 0)) if i % 12 == 5 else
               gen_case(ctx.rng, big=(thorough and i % 3 == 0), all_starts=(thorough or i % 4 == 0),
-                       tournament=(i % 7 == 3)) for i in range(n)]
+                       tournament=(i % 7 == 3), numeric=(i % 6 == 2)) for i in range(n)]
     # a small fixed number of big cases, spread over the list so that the driver chunks share them:
     # 1000-2500-node paths / caterpillars / stars (deep union-find) and 20-32-node (near-)complete graphs (stale heap)
     n_large, n_dense = (12, 40) if not thorough else (48, 300)
-    extra = [gen_large(ctx.rng, i) for i in range(n_large)] + [gen_dense(ctx.rng) for _ in range(n_dense)]
+    extra = [gen_large(ctx.rng, i) for i in range(n_large)]
+    extra += [numeric_edge(ctx.rng, gen_dense(ctx.rng)) if j % 4 == 3 else gen_dense(ctx.rng) for j in range(n_dense)]
     step = max(1, len(cases) // (len(extra) + 1))
     for j, c in enumerate(extra):
         cases.insert(min(len(cases), (j + 1) * step + j), c)
